@@ -1,5 +1,6 @@
 import Sop.Lemmas.Commit
 import Sop.Lemmas.CommitWitness
+import Sop.Lemmas.CommitPhase1
 /-!
 # C01 — a committed transaction's changes appear all-or-nothing across every store
 
@@ -88,6 +89,21 @@ theorem C01_counterexample : ¬ Statement_C01_err := by
   have := (h1 e1).2 0
   rw [e2, e3] at this
   exact absurd this (by decide)
+
+/-- **The error half of C01 at node level, for every fault**: a commit that fails in phase 1 — at ANY backend
+call, failing before or after taking effect, or in a conflict round — ends (after its live rollback, whose own
+calls may fail too) with every node that was loadable before still loadable, same blob, same version. What this
+does not cover is exactly what the findings list: the store COUNT (C01-F1), handles and blobs of nodes that did not
+exist before (C11), and leftover reservations in inactive slots (C07). -/
+theorem C01_failed_phase1_keeps_every_node (s0 : State) (w : WS) (fresh0 : List (UUID × UUID)) (pre : Pre s0 w fresh0)
+    (fault : Option Fault) (tid : Tid) (n : Nat) (r1 : Run)
+    (hf : phase1 w n { s := s0, tid := tid, fault := fault, fresh := fresh0 } = .error r1) :
+    ∀ lid, (s0.view lid).isSome →
+      (commit w n { s := s0, tid := tid, fault := fault, fresh := fresh0 }).2.s.view lid = s0.view lid :=
+  commit_phase1_failure_keeps_views pre fault tid n r1 hf
+
+/-- the premises are satisfiable by a non-trivial state (node updated + node added + staged id) -/
+theorem C01_premises_satisfiable : Pre Witness.s0 Witness.wSplit [(1, 9)] := Witness.pre_wSplit
 
 /-- non-vacuity of `reserve_keeps_view`'s hypotheses: the witness state reserves node 1 -/
 example : (reserveAll Witness.s0.now Witness.s0.hour [(1, 9)] [({ lid := 1, idA := 1, version := 1 }, 1)]).isSome = true := by
